@@ -418,7 +418,9 @@ class C16(Engine):
             "case/whitespace variants and deliberate duplicates; plain or escaped/entity/angle destinations; titles in three "
             "quote styles, possibly on the next line) parsed in order into 1-2 caller-owned envs (dict or UserDict) by 1-2 "
             "identically configured instances, some blocks twice; then a generated probe document extended with isolated "
-            "use paragraphs per label variant. Non-trivial = the probe resolves at least one link/image from a SEEDED "
+            "use paragraphs per label variant. Instances may have a past (parsed these definitions before into throw-away envs), "
+            "a reassigned link hook, the reference rule re-registered with terminator chains (definition directly under "
+            "paragraph text), a container plugin parsing part of a block as a nested sub-document on the same env. Non-trivial = the probe resolves at least one link/image from a SEEDED "
             "definition; distinct = distinct event-log digests among those.")
     assumptions = ["labels use an alphabet on which lower().upper() and casefold() agree (checked per pair; disagreeing "
                    "pairs are discarded and counted)", "inline_definitions is off; reference, link and image rules are on",
